@@ -263,7 +263,7 @@ func verifEvalNumber(src []byte, ctx *hcl.EvalContext) (int64, bool, bool) {
 // filter: in range the prescribed element comes back, out of range / unknown key gives an
 // error diagnostic and never a value.
 func H_c18_access() {
-	form := nondet_choice("form", 7)
+	form := nondet_choice("form", 8)
 	d := nondet_u8("digit")
 	verif_assume(d >= '0')
 	verif_assume(d <= '9')
@@ -319,6 +319,12 @@ func H_c18_access() {
 		} else {
 			verif_assert(n == 2, "elements not matching the filter stay in order")
 		}
+	case 7: // the filter guards the result expression: excluded elements are not evaluated
+		src := append(append([]byte("[for i in [0, 1, "), d), []byte("]: [10, 20][i] if i < 2][1]")...)
+		n, parsed, ok := verifEvalNumber(src, nil)
+		verif_assert(parsed, "a for expression parses")
+		verif_assert(ok, "an element the filter excludes is not evaluated by the result expression")
+		verif_assert(n == 20, "elements passing the filter stay in order")
 	case 6: // a splat over null is the empty tuple (known, length 0), whatever follows it
 		src := append(append([]byte("(null[*])[*].a"), ' ', '!', '=', ' '), d)
 		expr, diags := ParseExpression(src, "e", hcl.Pos{Byte: 0, Line: 1, Column: 1})
